@@ -19,6 +19,8 @@ import traceback
 VERIF = os.path.dirname(os.path.dirname(os.path.abspath(__file__)))
 REPO = os.environ.get("VERIF_REPO", "/repo")
 OUT = os.environ.get("VERIF_OUT", VERIF)  # evidence/ and replays/ go here (scratch runs against mutants use another dir)
+if os.environ.get("VERIF_DEV_NO_E2E") and "VERIF_OUT" not in os.environ:
+    OUT = "/tmp/verif-dev-out"        # a development run without the bounded e2e part never rewrites the real evidence
 sys.path.insert(0, REPO)
 sys.path.insert(0, VERIF)
 
@@ -133,7 +135,11 @@ def deductive(prop, tier, seed, reg, out):
     for lem in lemmas:
         mod = extract.import_module("pyxform.utils")
         v = contracts.Verifier("lemma", vars(mod), reg)
-        v.prove_lemma(lem)
+        try:
+            v.prove_lemma(lem)
+        except (Unsupported, ContractMismatch) as e:
+            fstatus[f"lemma.{lem.name}"] = ("contract-does-not-apply", str(e))
+            continue
         obs.extend(v.obligations)
         functions.append({"function": f"lemma.{lem.name}", "obligations": len(v.obligations)})
         trusted |= v.trusted_used
